@@ -20,7 +20,7 @@ def prev_ks(h, ki, n):
 
 
 C04_TAGS = ("refuse", "cmpref", "inv", "audit", "notin")
-C19_TAGS = ("accept", "endorsed", "stateless", "connected", "mpvalid", "mpgen", "cmpok", "payout")
+C19_TAGS = ("accept", "endorsed", "stateless", "connected", "mpvalid", "mpgen", "cmpok", "payout", "pubdata")
 
 
 class RulesGen(WorldGen):
@@ -212,6 +212,24 @@ class RulesGen(WorldGen):
             self.on("atvinfo", tid)
         return tids
 
+    def make_endorse(self, endorsed, vparent, last_known_vbk):
+        """endorsement whose PopData (connecting context) is produced by the library's miner from `last_known_vbk`"""
+        tid = "t%d" % self.nt
+        self.nt += 1
+        payout = "cd%04x" % int(tid[1:])
+        vid = "v%d" % self.nv
+        self.nv += 1
+        self.vbk[vid] = dict(parent=vparent, height=self.vbk[vparent]["height"] + 1)
+        self.atv[tid] = dict(endorsed=endorsed, bop=vid, payout=payout, ctx=self.honest_ctx(endorsed))
+        self.emit("on %s endorse %s %s %s %s %s" % (self.inst, tid, endorsed, vparent, last_known_vbk, payout), vid)
+        if self.vbk[vid]["height"] > self.vbk[self.vtip]["height"]:
+            self.vtip = vid
+        self.tick_ts(vid)
+        self.decl_vbk(vid)
+        self.decl("atv", tid, endorsed, vid, "honest")
+        self.on("atvinfo", tid)
+        return tid
+
     def make_xatv(self, endorsed, dh, k1, k2, vparent=None, payout="010203"):
         """ATV whose context info is tampered: height + dh, keystones replaced ("=" keeps)"""
         vparent = vparent or self.vtip
@@ -242,7 +260,12 @@ class RulesGen(WorldGen):
             self.decl_btc(b)
             self.decl_vbk(v)
         self.decl_btc(b)
-        self.decl("vtb", w, d["endorsed"], v, d["last"], ",".join(d["bctx"]))
+        if d["bctx"] and d["bctx"][0] == "b0":
+            # the library walked the BTC chain down to genesis (the "last known" block is on another fork): the
+            # context connects to genesis, which every node knows
+            self.decl("vtb", w, d["endorsed"], v, "b0", ",".join(d["bctx"][1:]))
+        else:
+            self.decl("vtb", w, d["endorsed"], v, d["last"], ",".join(d["bctx"]))
         self.on("vtbinfo", w)
 
     def _uniq_bparent(self, endorsed, bparent):
@@ -366,6 +389,16 @@ class RulesGen(WorldGen):
             bpar = last
         if r.chance(1, 3):
             bpar = self.mine_btc(bpar)
+        if fork[0] > 0 and self.btc[last]["height"] >= 2 and r.chance(1, 4):
+            # honest BTC reorganisation: the chain's newest BTC block `last` is on the losing fork now, the pop miner
+            # works on the winning one and still names `last` as the last block the altchain knows
+            c = last
+            for _ in range(r.range(1, 2)):
+                c = self.btc[c]["parent"]
+            b = c
+            for _ in range(self.btc[last]["height"] - self.btc[c]["height"] + r.range(1, 2)):
+                b = self.make_bts(b, max(self.bmtp(b), self.btc[b]["ts"]))
+            bpar = b
         return self.make_vtb(e, last, vparent=vpar, bparent=bpar)
 
     def hblock(self, parent, n_atv=None, n_vtb=None, fork=(1, 4), endorse=None):
@@ -1011,7 +1044,7 @@ def evaluate(g, res, prefix):
             ok = got == "true" or got.startswith("SKIP final")
         elif k == "endorsed":
             ok = got == "111" or got.startswith("SKIP")
-        elif k == "stateless":
+        elif k == "stateless" or k == "pubdata":
             ok = got == "ok"
         elif k == "payout":
             # an endorsement on the active chain inside the payout window is paid when its block of proof is on
@@ -1136,6 +1169,76 @@ def case_mempool(rng):
     g.verdict(N2, tag=("accept", N2))
     g.on("audit", tag=("audit",))
     g.meta = dict(mutation="mempool", planted=False, depth=hN, desc=0)
+    return g
+
+
+def case_mempool_stale(rng):
+    """honest VBK reorganisation: the node knows VBK fork A, the miners moved to fork B (splitting below A's tip);
+    a new endorsement is mined on B and the LIBRARY's miner builds its connecting context from the node's stale tip
+    on A. Delivered through the mempool; the endorsement must be generated, applied and counted."""
+    r = rng
+    g = RulesGen(r, small_cfg(r))
+    s = g.settle()
+    main = grow(g, "a0", r.range(1, 3))
+    tip = main[-1]
+    v = None
+    for _ in range(r.range(3, 5)):
+        v = g.fresh_vbk()
+    a = g.new_alt(tip)
+    g.set_pd(a, extra_ctx=[v])
+    tip = a
+    g.show(tip)
+    g.verdict(tip, tag=("accept", tip))
+    kv = g.alt[tip]["kv"]
+    A_tip = max(kv, key=lambda x: (g.vbk[x]["height"], -int(x[1:])))
+    c = A_tip
+    back = r.range(1, 2)
+    for _ in range(back):
+        c = g.vbk[c]["parent"]
+    b = c
+    for _ in range(back + r.range(1, 2)):
+        b = g.make_vts(b, max(g.vmin(b), g.vbk[b]["ts"]))
+    N = g.new_alt(tip)
+    hN = g.alt[N]["height"]
+    cands = [x for x in g.ancestry(tip) if x != "a0" and hN - g.alt[x]["height"] <= s]
+    t = g.make_endorse(r.choice(cands), b, A_tip)
+    known = set(kv)
+    ctx = g.vpath(known, g.atv[t]["bop"])
+    g.on("mpsubpd", t, tag=("mpvalid", t))
+    g.on("mpgen", N, tag=("mpgen1",))
+    first = len(g.lines) - 1
+    aN = g.alt[N]
+    aN["ctx"], aN["vtbs"], aN["atvs"] = ctx, [], [t]
+    g.decl("pd", N, ",".join(ctx) or "-", "-", t)
+    g.on("stateless", N, tag=("stateless", N))
+    g.show(N)
+    g.verdict(N, tag=("accept", N))
+    g.on("endorsed", t, N, tag=("endorsed", t))
+    N2 = g.new_alt(N)
+    g.on("mpgen", N2, tag=("mpgen", tuple(ctx), (), (t,), first))
+    g.decl("pd", N2, "-", "-", "-")
+    g.show(N2)
+    g.verdict(N2, tag=("accept", N2))
+    g.on("audit", tag=("audit",))
+    g.meta = dict(mutation="mempool_stale_fork", planted=False, depth=hN, desc=0)
+    return g
+
+
+def case_pubdata(rng):
+    """publication data produced by the library (GeneratePublicationData) for blocks that themselves carry pop
+    payloads, on an altchain whose header commits to the top-level merkle root (one self-contained scenario)"""
+    r = rng
+
+    class G:
+        pass
+    g = G()
+    n = r.range(3, 7)
+    e = r.range(2, n - 1) if n > 3 else 2
+    g.lines = ["pubdata %d %d %d %d %d" % (n, e, r.range(1, 2), r.range(1, 3), r.below(2))]
+    g.tags = {0: ("pubdata",)}
+    g.expect = [None]
+    g.meta = dict(mutation="library_pubdata", planted=False, depth=n, desc=0)
+    g.subtree = lambda x: [x]
     return g
 
 
